@@ -436,8 +436,75 @@ func c04JSON(w *run.Worker, d dctx) {
 	}
 }
 
+// a collection literal evaluated several times (loop body, second statement)
+// yields a fresh collection each time: a write through one evaluation's result
+// is not visible in the next
+func c04Reeval(w *run.Worker, d dctx) {
+	I, S, Id := rt.Int, rt.Str, rt.Id
+	lits := []nodeFn{
+		func() *rt.Node { return rt.List(rt.List(I(0), I(0)), rt.List(I(1))) },
+		func() *rt.Node { return rt.List(I(0), I(1)) },
+		func() *rt.Node { return rt.List(rt.List(rt.List(I(0)))) },
+		func() *rt.Node { return rt.Map(S("k"), rt.List(I(0), I(1)), S("j"), rt.Map(S("n"), I(0))) },
+		func() *rt.Node { return rt.List(rt.Map(S("k"), I(0)), S("s"), rt.Nil(), rt.Float(1.5), rt.Bool(true)) },
+		func() *rt.Node { return rt.List(rt.List(I(0), Id("i")), rt.List(I(1))) },
+	}
+	writes := []nodeFn{
+		func() *rt.Node { return rt.Assign("+=", rt.Index("a", I(0), I(0)), I(1)) },
+		func() *rt.Node { return rt.Assign("=", rt.Index("a", I(0), I(0)), I(9)) },
+		func() *rt.Node { return rt.Assign("=", rt.Index("a", I(0)), I(9)) },
+		func() *rt.Node { return rt.Assign("=", rt.Index("a", I(0), I(0), I(0)), I(9)) },
+		func() *rt.Node { return rt.Assign("=", rt.Index("a", S("k"), I(0)), I(9)) },
+		func() *rt.Node { return rt.Assign("=", rt.Index("a", S("j"), S("n")), I(9)) },
+		func() *rt.Node { return rt.Assign("=", rt.Index("a", I(0), S("k")), I(9)) },
+		func() *rt.Node { return rt.Assign("=", rt.Index("a", I(-1), I(0)), I(9)) },
+	}
+	for _, lit := range lits {
+		for _, wr := range writes {
+			for form := 0; form < 3; form++ {
+				if !w.Take() {
+					continue
+				}
+				var stmts []*rt.Node
+				body := func() []*rt.Node {
+					return []*rt.Node{rt.Assign("=", Id("a"), lit()), rt.Call("p", Id("a")), wr(), rt.Call("p", Id("a"))}
+				}
+				switch form {
+				case 0: // loop
+					stmts = []*rt.Node{rt.Assign("=", Id("i"), I(0)), rt.ForIn("i", rt.List(I(1), I(2), I(3)), rt.Block(body()...))}
+				case 1: // three-clause loop with the literal also in the condition-free body of an if
+					stmts = []*rt.Node{rt.For(rt.Assign("=", Id("i"), I(0)), rt.Bin("<", Id("i"), I(2)), rt.Assign("=", Id("i"), rt.Bin("+", Id("i"), I(1))),
+						rt.Block(rt.If(rt.Bool(true), rt.Block(body()...))))}
+				case 2: // straight-line: two separate evaluations of textually equal literals, and an alias in between
+					stmts = append([]*rt.Node{rt.Assign("=", Id("i"), I(0))}, body()...)
+					stmts = append(stmts, rt.Assign("=", Id("b"), Id("a")))
+					stmts = append(stmts, body()...)
+					stmts = append(stmts, rt.Call("p", Id("b")))
+				}
+				p := &Prog{Scripts: map[string][]*rt.Node{"s.p": stmts}, Main: "s.p", Point: PointSpec{Meas: "m"}}
+				w.Eval()
+				v := d.diff(p)
+				c04Report(w, d, "literal-reevaluation", p, v, "")
+				// the same loaded script run a second time on a fresh point must behave the same (the tree is shared)
+				if !d.v2 && v.OK && v.Skipped == "" {
+					srcs := p.Sources()
+					if sc, err := drv.Load1("s.p", srcs["s.p"]); err == nil {
+						r1 := drv.Run(sc, p.Point.real().Build(), &drv.Sig{FireAt: realPollCap})
+						r2 := drv.Run(sc, p.Point.real().Build(), &drv.Sig{FireAt: realPollCap})
+						w.EvalN(2)
+						if strings.Join(r1.Trace, ";") != strings.Join(r2.Trace, ";") || (r1.Err != nil) != (r2.Err != nil) {
+							w.Violate("C04:literal-reevaluation:second-run-of-loaded-script-differs", fmt.Sprintf("%s\nfirst run : %v\nsecond run: %v", srcs["s.p"], r1.Trace, r2.Trace), c04Case{Part: "rerun", Source: srcs["s.p"]})
+						}
+					}
+				}
+			}
+		}
+	}
+}
+
 func c04Run(w *run.Worker) {
 	d := dctx{id: "C04", diff: Differential}
+	c04Reeval(w, d)
 	c04Paths(w, d)
 	c04Alias(w, d)
 	c04JSON(w, d)
@@ -449,6 +516,15 @@ func c04Replay(raw json.RawMessage) (bool, string) {
 	var c c04Case
 	if err := json.Unmarshal(raw, &c); err != nil {
 		return false, err.Error()
+	}
+	if c.Part == "rerun" {
+		sc, err := drv.Load1("s.p", c.Source)
+		if err != nil {
+			return false, err.Error()
+		}
+		r1 := drv.Run(sc, PointSpec{Meas: "m"}.real().Build(), &drv.Sig{FireAt: realPollCap})
+		r2 := drv.Run(sc, PointSpec{Meas: "m"}.real().Build(), &drv.Sig{FireAt: realPollCap})
+		return strings.Join(r1.Trace, ";") != strings.Join(r2.Trace, ";"), fmt.Sprintf("first run : %v\nsecond run: %v", r1.Trace, r2.Trace)
 	}
 	if c.Part == "nonascii" {
 		sc, err := drv.Load1("s.p", c.Source)
@@ -468,7 +544,7 @@ func init() {
 		Rule: "(A) the complete slice table: every list and ASCII string of length 0..5 (thorough 0..6) x (start,end,step) each omitted or in -8..8 (thorough -10..10) or +-(2^63-1) or -2^63, " +
 			"bounds as literals and as variables, object as identifier and as literal, with and without the second colon; non-ASCII strings with a byte-or-rune disjunctive oracle; " +
 			"(B) every index read / write / compound-write path of depth <=3 over 6 nested shapes x 22 keys (in range, negative, -len, len, 2^32, +-2^63 extremes, strings, missing key, float, nil, bool); " +
-			"(C) every sequence of <=4 operations from 13 aliasing/mutation/snapshot operations; (D) load_json round trips; all against the reference (Python slice semantics, shared references, add_key snapshots)",
+			"(C) every sequence of <=4 operations from 13 aliasing/mutation/snapshot operations; (D) load_json round trips; (E) 6 nested collection literals x 8 deep writes evaluated repeatedly (for-in body, three-clause body inside an if, twice in straight-line code with an alias in between) and the loaded script run twice; all against the reference (Python slice semantics, shared references, add_key snapshots)",
 		Assumptions: []string{"encoding/json is the trusted base for the JSON text of snapshots", "unspecified cells: nil-valued slice bounds, indexing through a missing map key"},
 		Run:            c04Run,
 		Replay:         c04Replay,
